@@ -68,7 +68,9 @@ G9 == {x \in [g : {"rowsig"}, len : 1..4, cols : {None, 1, 2, 3}, at : 1..4, sig
          x.at <= x.len /\ (x.sig = "continue" \/ x.at = x.len \/ (x.cols # None /\ x.at % x.cols = 0))}
 \* a map whose keys are of different kinds and look alike when printed (the number 1 and the text "1"): every pair once
 G11 == [g : {"mixmap"}, tag : {"for", "tablerow"}, rev : BOOLEAN]
-Cases == G11 \cup G1 \cup G2 \cup G3 \cup G4 \cup G5 \cup G6 \cup G7 \cup G8 \cup G9 \cup G10
+\* the loop state as a tag of the embedding program sees it through its context (the body never says "forloop")
+G12 == [g : {"extidx"}, len : 0..3, tag : {"for", "tablerow"}, rev : BOOLEAN]
+Cases == G12 \cup G11 \cup G1 \cup G2 \cup G3 \cup G4 \cup G5 \cup G6 \cup G7 \cup G8 \cup G9 \cup G10
 
 \* a modifier is written as a literal or as a variable holding the number
 OV == <<111, 102>>
@@ -117,6 +119,9 @@ ProgOf(x) ==
                  body |-> <<cyc>> \o (IF x.twice THEN <<cyc>> ELSE <<>>) \o (IF x.grouped THEN <<other>> ELSE <<>>)],
                 \* a second loop starts its cycles afresh
                 [t |-> "for", tag |-> "for", var |-> X, coll |-> Var(A), lim |-> Lit(IntV(2)), body |-> <<cyc>>] >>
+    [] x.g = "extidx" ->
+         << [t |-> "for", tag |-> x.tag, var |-> X, coll |-> Var(A), body |-> <<[t |-> "xloopidx"], T(<<44>>)>>]
+            @@ (IF x.rev THEN [rev |-> TRUE] ELSE <<>>), [t |-> "xloopidx"] >>
     [] x.g = "mixmap" ->
          << [t |-> "for", tag |-> x.tag, var |-> X, coll |-> Var(A), body |-> <<Ob([t |-> "idx", e |-> Var(X), i |-> Lit(IntV(1))]), T(<<44>>)>>]
             @@ (IF x.rev THEN [rev |-> TRUE] ELSE <<>>) >>
@@ -144,7 +149,7 @@ MapN(n) == MapV([i \in 1..n |-> << <<106 + i>>, IntV(i) >>])        \* keys k, l
 EnvOf2(x) ==
   CASE x.g = "grid" /\ x.asvar -> << <<A, Arr(Ints(x.len))>>, <<X, Str(<<111>>)>>, <<OV, IntV(IF x.off = None THEN 0 ELSE x.off)>>, <<LV, IntV(IF x.lim = None THEN 0 ELSE x.lim)>> >>
     [] x.g = "range" /\ x.asvar -> << <<OV, IntV(x.lo)>>, <<<<104, 105>>, IntV(x.hi)>> >>
-    [] x.g \in {"grid", "signal", "tablerow", "cycle", "cycnest", "rowsig", "cycmix"} -> << <<A, Arr(Ints(x.len))>>, <<X, Str(<<111>>)>> >>
+    [] x.g \in {"grid", "signal", "tablerow", "cycle", "cycnest", "rowsig", "cycmix", "extidx"} -> << <<A, Arr(Ints(x.len))>>, <<X, Str(<<111>>)>> >>
     [] x.g = "mixmap" -> << <<A, MapV(<< <<<<105, 58, 49>>, IntV(1)>>, <<<<115, 58, 49>>, IntV(2)>>, <<<<115, 58, 120>>, IntV(3)>> >>)>> >>
     [] x.g = "coll" -> (CASE x.coll = "nil" -> << <<A, Nil>> >>
                           [] x.coll = "undef" -> <<>>
@@ -200,6 +205,10 @@ DeclOut(x) ==
                         \o TdOpen(((k - 1) % cols) + 1) \o (IF k = x.at THEN <<>> ELSE IntText(k)) \o TdClose
                         \o (IF k % cols = 0 \/ k = n THEN TrClose ELSE <<>>)
          IN  Flatten([k \in 1..last |-> cell(k)]) \o <<124, 111>>
+    [] x.g = "extidx" ->
+         LET cell(k) == IF x.tag = "for" THEN IntText(k) \o <<47>> \o IntText(x.len) \o <<44>>
+                        ELSE (IF k = 1 THEN TrOpen(1) ELSE <<>>) \o TdOpen(k) \o IntText(k) \o <<47>> \o IntText(x.len) \o <<44>> \o TdClose \o (IF k = x.len THEN TrClose ELSE <<>>)
+         IN  Flatten([k \in 1..x.len |-> cell(k)]) \o <<45>>
     [] x.g = "mixmap" ->
          LET ord == IF x.rev THEN <<3, 2, 1>> ELSE <<1, 2, 3>>
              cell(k) == IF x.tag = "for" THEN IntText(ord[k]) \o <<44>>
@@ -260,7 +269,8 @@ RestoredOutside ==
 StepBound == st.steps <= 40 * (L + 3) * 4
 
 IdOf(x) ==
-  CASE x.g = "mixmap" -> "mixmap-" \o x.tag \o "-" \o ToString(x.rev)
+  CASE x.g = "extidx" -> "extidx-" \o ToString(x.len) \o "-" \o x.tag \o "-" \o ToString(x.rev)
+    [] x.g = "mixmap" -> "mixmap-" \o x.tag \o "-" \o ToString(x.rev)
     [] x.g = "grid" -> "grid-" \o ToString(x.len) \o "-" \o ToString(x.off) \o "-" \o ToString(x.lim) \o "-" \o ToString(x.rev) \o "-" \o ToString(x.asvar)
     [] x.g = "signal" -> "sig-" \o ToString(x.len) \o "-" \o x.sig \o "-" \o ToString(x.at) \o "-" \o ToString(x.rev)
                          \o "-" \o ToString(x.off) \o "-" \o ToString(x.lim)
